@@ -211,8 +211,19 @@ func (node *harness) NextAction(ctx context.Context, flow Flow) chan IAction {
 	})
 
 	response := make(chan chan IAction, 1)
-	node.mch <- nextHarnessActionMessage{flow: flow, response: response}
-	return <-response
+	// The run loop exits when ctx is done; a flow arriving at that moment must
+	// not wait for it for ever (its own select observes ctx as well).
+	select {
+	case node.mch <- nextHarnessActionMessage{flow: flow, response: response}:
+	case <-ctx.Done():
+		return nil
+	}
+	select {
+	case out := <-response:
+		return out
+	case <-ctx.Done():
+		return nil
+	}
 }
 
 func (node *harness) Element() schema.FlowNodeInterface { return node.activity.Element() }
